@@ -13,8 +13,11 @@ import (
 	"math/rand"
 
 	ipfslog "berty.tech/go-ipfs-log"
+	"berty.tech/go-ipfs-log/accesscontroller"
 	"berty.tech/go-ipfs-log/entry"
+	idp "berty.tech/go-ipfs-log/identityprovider"
 	"berty.tech/go-ipfs-log/iface"
+	"github.com/ipfs/go-cid"
 )
 
 func cloneEntry(e iface.IPFSLogEntry) *entry.Entry {
@@ -24,6 +27,15 @@ func cloneEntry(e iface.IPFSLogEntry) *entry.Entry {
 	return c
 }
 
+type payloadAC struct{ deny map[string]bool }
+
+func (p *payloadAC) CanAppend(e accesscontroller.LogEntry, _ idp.Interface, _ accesscontroller.CanAppendAdditionalContext) error {
+	if p.deny[string(e.GetPayload())] {
+		return fmt.Errorf("payload refused by the harness access controller")
+	}
+	return nil
+}
+
 type c06Stats struct {
 	forged, rejected, aliasRuns int
 	kinds                       map[string]int
@@ -31,11 +43,13 @@ type c06Stats struct {
 
 func runForgeScenarios(rng *rand.Rand, n int, st *c06Stats, fail func(prop, mon, key, detail string, c interface{})) {
 	ctx := context.Background()
-	kinds := []string{"nosig", "wrongsig", "nokey", "otherkey", "flipsig"}
+	kinds := []string{"nosig", "wrongsig", "nokey", "otherkey", "flipsig", "foreignid", "aclpayload"}
 	for it := 0; it < n; it++ {
 		w := newWorld()
+		// an access controller whose verdict depends on the entry, not only on its writer
+		pac := &payloadAC{deny: map[string]bool{}}
 		mk := func(id string) *ipfslog.IPFSLog {
-			l, err := ipfslog.NewLog(w.api, w.idents[id], &ipfslog.LogOptions{ID: "L", SortFn: sortFnOf(pick(rng, []string{"lww", "hash"}))})
+			l, err := ipfslog.NewLog(w.api, w.idents[id], &ipfslog.LogOptions{ID: "L", SortFn: sortFnOf(pick(rng, []string{"lww", "hash"})), AccessController: pac})
 			if err != nil {
 				panic(err)
 			}
@@ -106,7 +120,25 @@ func runForgeScenarios(rng *rand.Rand, n int, st *c06Stats, fail func(prop, mon,
 			}
 			forgedMap.Set(e.GetHash().String(), c)
 		}
-		forged, err := ipfslog.NewLog(w.api, w.idents["A"], &ipfslog.LogOptions{ID: "L", Entries: forgedMap, Heads: a.Heads().Slice()})
+		forgedHeads := a.Heads().Slice()
+		switch kind {
+		case "foreignid":
+			// a correctly signed entry of ANOTHER log, on top of the honest heads, in a log that claims id "L"
+			var next []cid.Cid
+			for _, h := range a.Heads().Slice() {
+				next = append(next, h.GetHash())
+			}
+			f, err := entry.CreateEntry(ctx, w.api, w.idents["A"], &entry.Entry{LogID: "M", Payload: []byte("from-another-log"), Next: next}, nil)
+			if err != nil {
+				panic(err)
+			}
+			forgedMap.Set(f.GetHash().String(), f)
+			forgedHeads = []iface.IPFSLogEntry{f}
+		case "aclpayload":
+			// nothing is forged: the destination's access controller refuses the victim's payload
+			pac.deny[string(victim.GetPayload())] = true
+		}
+		forged, err := ipfslog.NewLog(w.api, w.idents["A"], &ipfslog.LogOptions{ID: "L", Entries: forgedMap, Heads: forgedHeads})
 		if err != nil {
 			panic(err)
 		}
@@ -126,12 +158,26 @@ func runForgeScenarios(rng *rand.Rand, n int, st *c06Stats, fail func(prop, mon,
 			}()
 			_, jerr = dest.Join(forged, -1)
 		}()
-		if jerr == nil {
+		if kind == "foreignid" {
+			// entries of another log are never added (the merge may skip them or fail, it must not admit them)
+			for _, e := range dest.GetEntries().Slice() {
+				if e.GetLogID() != "L" {
+					fail("C06", "admitted-entries-carry-log-id", "C06:join-admitted-foreign-log-id",
+						fmt.Sprintf("after the merge the log holds an entry with log id %q", e.GetLogID()), caseInfo)
+					break
+				}
+			}
+			if jerr == nil {
+				st.rejected++
+				continue
+			}
+		} else if jerr == nil {
 			fail("C06", "forged-entry-rejected", "C06:join-accepted-invalid-entry:"+kind,
 				fmt.Sprintf("Join accepted a log containing a %s entry among %d new entries", kind, len(cands)), caseInfo)
 		} else {
 			st.rejected++
 		}
+		pac.deny = map[string]bool{} // the honest merge below is not refused
 		after := snapLog(dest)
 		if jerr != nil && (len(after.entries) != len(before.entries) || !eqStrings(after.values, before.values) ||
 			!eqStrings(sortedCopy(hashesOf(dest.Heads().Slice())), headsBefore)) {
@@ -262,6 +308,119 @@ func runPartialJoinScenarios(rng *rand.Rand, n int, st *c06Stats, fail func(prop
 		}
 		if len(after.values) != len(ents) {
 			fail("C03", "values-complete", "C03:incomplete", fmt.Sprintf("Values() has %d of %d entries after merging a partially loaded log", len(after.values), len(ents)), caseInfo)
+		}
+	}
+}
+
+// Append on logs the history engine does not produce (C04): logs whose clock was seeded through
+// LogOptions.Clock (times around 2^53 and 2^62, where float64 arithmetic would round), and logs
+// reloaded from their published heads under each supported ordering, whose own clock lags behind
+// their heads.  After every append: next = previous heads, single head, and
+// time = max(previous clock, newest previous head) + 1 > every entry already in the log.
+func runAppendScenarios(rng *rand.Rand, n int, st *c06Stats, fail func(prop, mon, key, detail string, c interface{})) {
+	ctx := context.Background()
+	checkAppend := func(l *ipfslog.IPFSLog, payload string, pc int, caseInfo interface{}) {
+		before := l.GetEntries().Slice()
+		headsBefore := sortedCopy(hashesOf(l.Heads().Slice()))
+		want := l.Clock.GetTime()
+		for _, h := range l.Heads().Slice() {
+			if t := h.GetClock().GetTime(); t > want {
+				want = t
+			}
+		}
+		want++
+		e, err := l.Append(ctx, []byte(payload), &ipfslog.AppendOptions{PointerCount: pc})
+		if err != nil {
+			fail("C04", "append-succeeds", "C04:append-failed", err.Error(), caseInfo)
+			return
+		}
+		var next []string
+		for _, c := range e.GetNext() {
+			next = append(next, c.String())
+		}
+		if !eqStrings(sortedCopy(next), headsBefore) {
+			fail("C04", "next-is-heads", "C04:next-not-heads", fmt.Sprintf("next=%v heads before=%v", next, headsBefore), caseInfo)
+		}
+		if e.GetClock().GetTime() != want {
+			fail("C04", "time-is-max-plus-one", "C04:time-not-greater", fmt.Sprintf("new entry has time %d, want max(clock, heads)+1 = %d", e.GetClock().GetTime(), want), caseInfo)
+		}
+		for _, b := range before {
+			if b.GetClock().GetTime() >= e.GetClock().GetTime() {
+				fail("C04", "time-dominates", "C04:time-not-greater", fmt.Sprintf("existing entry has time %d >= new time %d", b.GetClock().GetTime(), e.GetClock().GetTime()), caseInfo)
+				break
+			}
+		}
+		if hd := hashesOf(l.Heads().Slice()); len(hd) != 1 || hd[0] != e.GetHash().String() {
+			fail("C04", "single-head", "C04:not-single-head", fmt.Sprintf("heads after append = %v", hd), caseInfo)
+		}
+	}
+	names := []string{"A", "B", "C"}
+	for it := 0; it < n; it++ {
+		// 1. seeded clocks
+		w := newWorld()
+		base := pick(rng, []int{1<<53 - 2, 1<<53 - 1, 1 << 53, 1<<53 + 1, 1<<53 + 7, 1 << 62, 41})
+		var logs []*ipfslog.IPFSLog
+		for i, nm := range names {
+			opts := &ipfslog.LogOptions{ID: "L"}
+			if i != 1 {
+				opts.Clock = entry.NewLamportClock(w.idents[nm].PublicKey, base+rng.Intn(3)*i)
+			}
+			l, err := ipfslog.NewLog(w.api, w.idents[nm], opts)
+			if err != nil {
+				panic(err)
+			}
+			logs = append(logs, l)
+		}
+		st.aliasRuns++
+		info := map[string]interface{}{"scenario": "appends and merges on logs with seeded clocks", "base_time": base, "seed_iteration": it}
+		for s := 0; s < 10; s++ {
+			a := rng.Intn(3)
+			if rng.Intn(3) > 0 {
+				checkAppend(logs[a], fmt.Sprintf("k%d-%d", a, s), pick(rng, []int{0, 1, 2, 4}), info)
+			} else if b := rng.Intn(3); b != a {
+				if _, err := logs[a].Join(logs[b], -1); err != nil {
+					panic(err)
+				}
+			}
+		}
+		// 2. reloaded under each ordering (the reloaded log's own clock lags behind its heads)
+		w = newWorld()
+		la, _ := ipfslog.NewLog(w.api, w.idents["A"], &ipfslog.LogOptions{ID: "L"})
+		lb, _ := ipfslog.NewLog(w.api, w.idents["B"], &ipfslog.LogOptions{ID: "L"})
+		na, nb := 1+rng.Intn(4), 1+rng.Intn(4)
+		for i := 0; i < na; i++ {
+			if _, err := la.Append(ctx, []byte(fmt.Sprintf("a%d", i)), nil); err != nil {
+				panic(err)
+			}
+		}
+		for i := 0; i < nb; i++ {
+			if _, err := lb.Append(ctx, []byte(fmt.Sprintf("b%d", i)), nil); err != nil {
+				panic(err)
+			}
+		}
+		if _, err := la.Join(lb, -1); err != nil {
+			panic(err)
+		}
+		for _, srt := range []string{"lww", "fww", "hash"} {
+			for loader := 0; loader < 2; loader++ {
+				var lc *ipfslog.IPFSLog
+				var err error
+				if loader == 0 {
+					lc, err = ipfslog.NewFromJSON(ctx, w.api, w.idents["C"], la.ToJSONLog(), &ipfslog.LogOptions{ID: "L", SortFn: sortFnOf(srt)}, &entry.FetchOptions{})
+				} else {
+					var mh cid.Cid
+					if mh, err = la.ToMultihash(ctx); err == nil {
+						lc, err = ipfslog.NewFromMultihash(ctx, w.api, w.idents["C"], mh, &ipfslog.LogOptions{ID: "L", SortFn: sortFnOf(srt)}, &ipfslog.FetchOptions{})
+					}
+				}
+				if err != nil {
+					panic(err)
+				}
+				st.aliasRuns++
+				info := map[string]interface{}{"scenario": "append on a log reloaded from its published heads", "sort": srt, "loader": []string{"NewFromJSON", "NewFromMultihash"}[loader], "a_entries": na, "b_entries": nb}
+				checkAppend(lc, "c0", 1, info)
+				checkAppend(lc, "c1", 2, info)
+			}
 		}
 	}
 }
